@@ -30,7 +30,6 @@ for m in idx:
         print(results[-1], flush=True)
     finally:
         shutil.rmtree(tmp, ignore_errors=True)
-subprocess.run(["git", "-C", HERE, "checkout", "--", "evidence"], capture_output=True)
 bad = [r for r in results if r[1] != "OK"]
 print("canaries: %d, not ok: %d" % (len(results), len(bad)))
 sys.exit(1 if bad else 0)
